@@ -45,8 +45,8 @@ KINDS = ("supervised", "semi", "knn", "unsup")
 
 def arms(tier):
     if tier == "thorough":
-        return [("mixed", 500_000), ("dist", 400_000)]
-    return [("mixed", 9_000), ("dist", 9_000)]
+        return [("mixed", 800_000), ("dist", 800_000)]
+    return [("mixed", 27_000), ("dist", 27_000)]
 
 
 def hist_slice(tier):
@@ -63,7 +63,12 @@ def gen_case(rng, arm, tier, k=0):
     for _ in range(rng.randint(2, 3)):
         style = rng.choice(("zeros", "zeros", "positive", "lattice", "generic", "dups", "prob"))
         n = rng.randint(max(3, K), 10)
-        mats.append({"style": style, "X": gen_matrix(rng, n, d, style), "Y": gen_labels(rng, n, K)})
+        Ym = gen_labels(rng, n, K)
+        if rng.random() < 0.25:
+            # a fold without any class-0 sample (e.g. 1-based labels): legal for every call
+            # whose predictions stay within the labels' range
+            Ym = [y + 1 for y in Ym]
+        mats.append({"style": style, "X": gen_matrix(rng, n, d, style), "Y": Ym})
     vecs = []
     for _ in range(rng.randint(2, 4)):
         style = rng.choice(("zeros", "zeros", "positive", "generic"))
@@ -88,6 +93,16 @@ def gen_case(rng, arm, tier, k=0):
     ops = []
     for _ in range(rng.randint(6, 40)):
         r = rng.random()
+        if rng.random() < 0.12:
+            # the caller reuses one of its own buffers: writes new values into it in place
+            tgt = ref()
+            if ops and ops[-1][0] == "dist" and rng.random() < 0.6:
+                tgt = ops[-1][3] if rng.random() < 0.7 else ops[-1][4]  # the buffer just used as an argument
+            st = style_of(tgt)
+            ops.append(["mutate", tgt, rng.randrange(d), gen_value(rng, st if st not in ("dups", "prob") else "positive")])
+            if len(ops) >= 2 and ops[-2][0] == "dist" and rng.random() < 0.7:
+                ops.append(list(ops[-2]))  # the same evaluation on the changed contents
+            continue
         if arm == "dist" or r < 0.45:
             a = ref()
             b = a if rng.random() < 0.12 else ref()
@@ -129,6 +144,13 @@ class World:
         self.labs = [iarr(m["Y"]) for m in case["mats"]]
         self.vecs = [np.array(v["v"], dtype=np.float64) for v in case["vecs"]]
 
+    def clone(self):
+        w = World.__new__(World)
+        w.mats = [m.copy() for m in self.mats]
+        w.labs = [y.copy() for y in self.labs]
+        w.vecs = [v.copy() for v in self.vecs]
+        return w
+
     def buffers(self):
         return [("mat%d" % i, m) for i, m in enumerate(self.mats)] + [("lab%d" % i, y) for i, y in enumerate(self.labs)] + [("vec%d" % i, v) for i, v in enumerate(self.vecs)]
 
@@ -137,6 +159,10 @@ class World:
             return self.vecs[r[1] % len(self.vecs)]
         m = self.mats[r[1] % len(self.mats)]
         return m[r[2] % len(m)]  # a view of the caller's matrix
+
+    def mutate(self, r, j, v):
+        a = self.get(r)
+        a[j % len(a)] = v
 
     def bufname(self, r):
         return "vec%d" % (r[1] % len(self.vecs)) if r[0] == "vec" else "mat%d" % (r[1] % len(self.mats))
@@ -237,6 +263,8 @@ def execute(op, w, scratch, tag):
 
 
 def touched(op, w):
+    if op[0] == "mutate":
+        return {w.bufname(op[1])}
     if op[0] == "dist":
         return {w.bufname(op[3]), w.bufname(op[4])}
     if op[0] in ("fit", "fitpredict", "getdist"):
@@ -251,6 +279,8 @@ def touched(op, w):
 
 
 def op_label(op):
+    if op[0] == "mutate":
+        return ("mutate",)
     if op[0] == "dist":
         return ("dist", op[1], op[2])
     if op[0] in ("fit", "fitpredict", "getdist"):
@@ -276,7 +306,10 @@ def run_case(case):
         if not case["mats"] or not case["vecs"]:
             raise OutOfDomain()
         live = World(case)
-        pristine = [(name, abits(b)) for name, b in World(case).buffers()]
+        shadow = World(case)  # what the caller itself wrote; never handed to the library
+        pristine = [(name, abits(b)) for name, b in shadow.buffers()]
+        snapshots = [shadow.clone()]
+        pending = []
         log = EventLog()
         last_touch = {}
         states = set()
@@ -285,6 +318,16 @@ def run_case(case):
         for k, op in enumerate(case["ops"]):
             out.steps += 1
             lab = op_label(op)
+            if op[0] == "mutate":
+                live.mutate(op[1], op[2], op[3])
+                shadow.mutate(op[1], op[2], op[3])
+                pristine = [(name, abits(b)) for name, b in shadow.buffers()]
+                snapshots.append(shadow.clone())
+                bump(out.probes, "caller_rewrote_own_buffer_in_place")
+                log.add(k, "mutate")
+                last_touch[live.bufname(op[1])] = lab
+                norm.append((lab, tuple(op[1:])))
+                continue
             mclass = metric_class(lab[1]) if len(lab) > 1 and lab[1] in ALL_METRICS else (metric_class(lab[2]) if len(lab) > 2 else "none")
             ok, res, exc = attempt(op, live, scratch, "live")
             # ---- I1: caller buffers untouched
@@ -303,29 +346,9 @@ def run_case(case):
                             buffer=name[:3],
                         )
                     )
-            # ---- I2: same result in a world without history
-            twin = World(case)
-            ok2, res2, exc2 = attempt(op, twin, scratch, "twin")
-            if ok != ok2 or (not ok and type(exc).__name__ != type(exc2).__name__):
-                e = exc if not ok else exc2
-                v = raised_violation(e, B.REPO_PKG, "op #%d %s on the %s world only" % (k, op, "live" if not ok else "pristine"), extra_clause="-history-dependent")
-                raise Stop(v)
-            if not ok:
-                bump(out.probes, "call_raises_consistently")
-                log.add(k, lab, "raises", type(exc).__name__)
-            else:
-                a, b = canon(res), canon(res2)
-                if a != b:
-                    raise Stop(
-                        violation(
-                            "result-depends-on-history",
-                            "op #%d %s returned a different value than the same call on pristine copies of its arguments: %s"
-                            % (k, op, first_diff(a, b)),
-                            op=lab[0],
-                            metric_class=mclass,
-                        )
-                    )
-                log.add(k, lab, dig(a))
+            # ---- I2 is decided after the history (below): evaluating the twin in between would
+            # itself perturb whatever hidden state the library keeps from call to call
+            pending.append((k, op, lab, mclass, ok, canon(res) if ok else None, exc, len(snapshots) - 1))
             # ---- probes / measures
             t = touched(op, live)
             for name in t:
@@ -344,6 +367,30 @@ def run_case(case):
             elif op[0] in ("fit", "fitpredict", "getdist") and any(n in last_touch for n in t):
                 bump(out.probes, "model_fitted_on_buffer_with_history")
             norm.append((lab, tuple(map(tuple_or, op[3:5])) if op[0] == "dist" else tuple(op[1:])))
+        # ---- I2: every recorded result equals the same call in a world without history
+        for k, op, lab, mclass, ok, a, exc, ver in pending:
+            twin = snapshots[ver].clone()
+            ok2, res2, exc2 = attempt(op, twin, scratch, "twin")
+            if ok != ok2 or (not ok and type(exc).__name__ != type(exc2).__name__):
+                e = exc if not ok else exc2
+                v = raised_violation(e, B.REPO_PKG, "op #%d %s on the %s world only" % (k, op, "live" if not ok else "pristine"), extra_clause="-history-dependent")
+                raise Stop(v)
+            if not ok:
+                bump(out.probes, "call_raises_consistently")
+                log.add(k, lab, "raises", type(exc).__name__)
+                continue
+            b = canon(res2)
+            if a != b:
+                raise Stop(
+                    violation(
+                        "result-depends-on-history",
+                        "op #%d %s returned a different value within the history than the same call on fresh copies of the same argument values: %s"
+                        % (k, op, first_diff(a, b)),
+                        op=lab[0],
+                        metric_class=mclass,
+                    )
+                )
+            log.add(k, lab, dig(a))
         out.digest = log.hexdigest()
         out.hist = h64((case["d"], tuple(norm)))
         out.nontrivial = shared >= 1
